@@ -74,7 +74,7 @@ def materialise(task, package_dir):
 
 
 def execute_runsim(task, package_dir, monitor_factories, crash_property, nontrivial, sample=None,
-                   crash_anchor_files=None):
+                   crash_anchor_files=None, construction_anchor_files=None):
     scn = materialise(task, package_dir)
     result = runsim.run_scenario(scn, monitor_factories, package_dir)
     summary = {
@@ -98,6 +98,21 @@ def execute_runsim(task, package_dir, monitor_factories, crash_property, nontriv
                                           "detail": dict(classify_crash(result.error or "", result.notes),
                                                          crash_signature=crash_signature(result.error or ""),
                                                          traceback=(result.error or "")[-2500:])})
+    built_files = getattr(result, "construction_crash_files", None)
+    if result.status == "invalid" and built_files and construction_anchor_files and any(
+            any(anchor in f for anchor in construction_anchor_files) for f in built_files[-2:]):
+        summary["status"] = "violation"
+        summary["violations"].append({"property": crash_property,
+                                      "oracle": "crash_while_building_a_well_formed_configuration", "step": 0,
+                                      "detail": {"crash_signature": crash_signature(result.error or ""),
+                                                 "traceback": (result.error or "")[-2500:]}})
+    if result.status == "invalid" and scn.get("well_formed_factor_file") and construction_anchor_files:
+        # the factory turns whatever the tagger's parser raises into a ConfigurationError
+        summary["status"] = "violation"
+        summary["violations"].append({"property": crash_property,
+                                      "oracle": "well_formed_generated_factor_file_cannot_be_built", "step": 0,
+                                      "detail": {"factor_file": scn["set"].get("FactorTypeMaps", {}).get("filename"),
+                                                 "error": (result.error or "")[-600:]}})
     summary["nontrivial"] = bool(nontrivial(result)) and result.status in ("ok", "capped")
     summary["sample"] = sample(result, scn) if sample else {"scenario": scn, "events": result.events,
                                                           "kinds": dict(result.kinds)}
